@@ -29,6 +29,7 @@ def run(ctx, report):
     report.section("tables", c11_tables.run, ctx, report)
     report.section("span typestate", spans, ctx, report)
     report.section("WebVTT nesting", webvtt_nesting, ctx, report)
+    report.section("SAMI style attribute round trip", sami_style_roundtrip, ctx, report)
     report.section("SCC italics pipeline", scc_pipeline, ctx, report)
     report.section("purity", purity, ctx, report)
     from . import markup_writer_fold
@@ -43,6 +44,52 @@ def run(ctx, report):
 def spans(ctx, report):
     from . import markup_writer_fold
     markup_writer_fold.span_sequences(ctx, report, "R-SPAN-TYPESTATE", "2")
+
+
+def sami_style_roundtrip(ctx, report):
+    """the inline style attribute SAMIWriter writes for a span, handed to SAMIReader's own attribute translation: every
+    subset of italics / bold / underline comes back as the same subset (writer and reader folded back to back on the
+    attribute string; the SAMI parser in between only carries the string)"""
+    import itertools
+    from . import markup_writer_fold as MW
+    from ..core.constfold import Stub
+    W = MW.World(ctx)
+    rd = ctx.index.get_class(SAMI, "SAMIReader")
+    ta = rd.find_method("_translate_attrs")
+    if ta is None:
+        raise AnalysisError("SAMIReader._translate_attrs not found")
+    report.covered(ta)
+    keys = ("italics", "bold", "underline")
+    bad = []
+    n = 0
+    for k in range(1, 4):
+        for sub in itertools.combinations(keys, k):
+            n += 1
+            content = {x: True for x in sub}
+            nodes = [W.ev("CaptionNode.create_style(True, c)", c=dict(content)), W.ev("CaptionNode.create_text('x')"),
+                     W.ev("CaptionNode.create_style(False, c)", c=dict(content))]
+            cs = W.ev("CaptionSet({'en-US': CaptionList([Caption(1000000, 2000000, n)])})", n=nodes)
+            try:
+                fn, doc, _ = W.write(SAMI, "SAMIWriter", cs)
+            except (MW.FoldRaise, AnalysisError) as e:
+                raise AnalysisError(f"SAMIWriter.write cannot be folded on a styled span: {e}")
+            m = re.search(r'<span[^>]*\sstyle="([^"]*)"', doc)
+            if not m:
+                bad.append({"style": list(sub), "why": "no span with a style attribute was written", "paragraph": doc[-200:]})
+                continue
+            me = Stub("reader", {"line": [], "first_alignment": None}, cls=rd)
+            try:
+                got = W.F.call_function(ta, [Stub("tag", {"attrs": {"style": m.group(1)}, "name": "span"})], {}, self_value=me)
+            except MW.FoldRaise as e:
+                bad.append({"style": list(sub), "attribute": m.group(1), "reader_raises": e.exc_name})
+                continue
+            except AnalysisError as e:
+                raise AnalysisError(f"SAMIReader._translate_attrs cannot be folded on {m.group(1)!r}: {e}")
+            back = sorted(x for x in keys if isinstance(got, dict) and got.get(x))
+            if back != sorted(sub):
+                bad.append({"style": list(sub), "attribute_written": m.group(1), "read_back": back})
+    report.check(not bad, "R-TABLE-INVERSE", ta, "SAMI: the style attribute written for every subset of italics / bold / underline "
+                 "is read back as the same subset", {"subsets": n, "mismatches": bad[:3]}, "1")
 
 
 def webvtt_nesting(ctx, report):
